@@ -46,11 +46,21 @@ fn visual_elements<'a, 'b>(
         else {
             return false;
         };
-        name_node
-            .text()
-            .map(|name| names.contains(&name))
+        char_data(name_node)
+            .map(|name| names.contains(&name.as_str()))
             .unwrap_or(false)
     })
+}
+
+/// The character data of an element: all of its text. (`Node::text` stops at the first comment or
+/// processing instruction inside the element.)
+fn char_data(node: roxmltree::Node<'_, '_>) -> Option<String> {
+    let mut texts = node
+        .children()
+        .filter(|n| n.is_text())
+        .filter_map(|n| n.text());
+    let first = texts.next()?;
+    Some(texts.fold(first.to_string(), |data, text| data + text))
 }
 
 fn attrib<'a, 'b>(node: roxmltree::Node<'a, 'b>, label: &str) -> Option<roxmltree::Node<'a, 'b>> {
@@ -65,17 +75,17 @@ fn attrib<'a, 'b>(node: roxmltree::Node<'a, 'b>, label: &str) -> Option<roxmltre
         let Some(s) = entry.first_element_child() else {
             continue;
         };
-        if s.tag_name().name() == "string" && s.text() == Some(label) {
+        if s.tag_name().name() == "string" && char_data(s).as_deref() == Some(label) {
             return entry.last_element_child();
         }
     }
     None
 }
 
-fn extract_signal_data<'a>(node: roxmltree::Node<'a, '_>) -> Option<(&'a str, usize)> {
-    let label = attrib(node, "Label")?.text()?;
+fn extract_signal_data(node: roxmltree::Node<'_, '_>) -> Option<(String, usize)> {
+    let label = char_data(attrib(node, "Label")?)?;
     let bits = attrib(node, "Bits")
-        .and_then(|node| node.text()?.parse().ok())
+        .and_then(|node| char_data(node)?.parse().ok())
         .unwrap_or(1);
 
     Some((label, bits))
@@ -130,7 +140,7 @@ impl File {
         let output_signals = visual_elements(&doc, &["Out"])
             .filter_map(|node| extract_signal_data(node))
             .map(|(name, bits)| Signal {
-                name: name.to_string(),
+                name,
                 bits,
                 typ: SignalType::Output,
             });
@@ -145,7 +155,7 @@ impl File {
                 }
             })
             .map(|(name, bits, default)| Signal {
-                name: name.to_string(),
+                name,
                 bits,
                 typ: SignalType::Input { default },
             });
@@ -155,7 +165,7 @@ impl File {
         let test_cases = visual_elements(&doc, &["Testcase"])
             .filter_map(|node| {
                 let name: String = if let Some(label_node) = attrib(node, "Label") {
-                    label_node.text().unwrap_or("").to_string()
+                    char_data(label_node).unwrap_or_default()
                 } else {
                     String::from("(unnamed)")
                 };
@@ -167,7 +177,7 @@ impl File {
                 if data_string_node.tag_name().name() != "dataString" {
                     return None;
                 }
-                let source = data_string_node.text().unwrap_or("").to_string();
+                let source = char_data(data_string_node).unwrap_or_default();
 
                 Some(TestCaseDescription { name, source })
             })
